@@ -28,6 +28,9 @@ pub struct Case {
     /// single query to replay (None = all queries)
     #[serde(default)]
     pub only: Option<Query>,
+    /// put in front of every stream id ("s0", "s1", ...) of the layout
+    #[serde(default)]
+    pub stream_prefix: String,
 }
 
 #[derive(Serialize, Deserialize, Clone, Debug, PartialEq)]
@@ -81,33 +84,56 @@ fn layouts(shapes: &[TxS], depth: usize, min_len: usize) -> Vec<Vec<TxS>> {
     out
 }
 
+/// A sealed segment crowded with streams whose ids all extend the id of a stream that lives in an older segment
+/// ("s1" in segment 0; "s10".."s19", "s100".."s199" in segment 1, which "s1" is absent from): lookups of "s1" in
+/// segment 1 go through its bloom filter (sized for far fewer streams, so it answers "maybe") and its MPHF index
+/// (which maps an absent id to some slot), and only the comparison with the id stored in the slot tells them apart.
+fn crowded_layout() -> Vec<TxS> {
+    let mut l = vec![TxS::single(0, 1, Size::Tiny), TxS::single(0, 1, Size::Tiny), TxS::single(0, 1, Size::Tiny)];
+    l.extend([TxS::single(0, 0, Size::Block), TxS::single(0, 0, Size::Block), TxS::single(0, 0, Size::Block)]);
+    for s in (10u8..20).chain(100..200) {
+        l.push(TxS::single(0, s, Size::Tiny));
+    }
+    l.extend([TxS::single(0, 0, Size::Block), TxS::single(0, 0, Size::Block)]);
+    l
+}
+
 pub fn cases(tier: Tier) -> Vec<Case> {
     let mut v = Vec::new();
     let every = SyncMode::EveryWrite;
+    for reopen in [false, true] {
+        // with a long common prefix every proper prefix of it is a stream id that every stored id extends
+        for prefix in ["", "account-stream-"] {
+            v.push(Case { cfg: DbCfg::simple(MIN_SEG, true, every), layout: crowded_layout(), reopen, only: None, stream_prefix: prefix.to_string() });
+            if tier.is_thorough() {
+                v.push(Case { cfg: DbCfg::simple(MIN_SEG, false, every), layout: crowded_layout(), reopen, only: None, stream_prefix: prefix.to_string() });
+            }
+        }
+    }
     if tier.is_thorough() {
         for (seg, comp) in [(MIN_SEG, true), (MIN_SEG, false), (192 * 1024, true), (1024 * 1024, true)] {
             for l in layouts(&shapes(true), 3, 1) {
                 for reopen in [false, true] {
-                    v.push(Case { cfg: DbCfg::simple(seg, comp, every), layout: l.clone(), reopen, only: None });
+                    v.push(Case { cfg: DbCfg::simple(seg, comp, every), layout: l.clone(), reopen, only: None, stream_prefix: String::new() });
                 }
             }
         }
         for l in layouts(&shapes(false), 5, 4) {
             for reopen in [false, true] {
-                v.push(Case { cfg: DbCfg::simple(MIN_SEG, true, every), layout: l.clone(), reopen, only: None });
+                v.push(Case { cfg: DbCfg::simple(MIN_SEG, true, every), layout: l.clone(), reopen, only: None, stream_prefix: String::new() });
             }
         }
         for l in layouts(&shapes(false)[..5], 7, 6) {
-            v.push(Case { cfg: DbCfg::simple(MIN_SEG, false, every), layout: l, reopen: false, only: None });
+            v.push(Case { cfg: DbCfg::simple(MIN_SEG, false, every), layout: l, reopen: false, only: None, stream_prefix: String::new() });
         }
     } else {
         for l in layouts(&shapes(false), 3, 1) {
             for reopen in [false, true] {
-                v.push(Case { cfg: DbCfg::simple(MIN_SEG, true, every), layout: l.clone(), reopen, only: None });
+                v.push(Case { cfg: DbCfg::simple(MIN_SEG, true, every), layout: l.clone(), reopen, only: None, stream_prefix: String::new() });
             }
         }
         for l in layouts(&shapes(false)[..4], 4, 4) {
-            v.push(Case { cfg: DbCfg::simple(MIN_SEG, false, every), layout: l, reopen: false, only: None });
+            v.push(Case { cfg: DbCfg::simple(MIN_SEG, false, every), layout: l, reopen: false, only: None, stream_prefix: String::new() });
         }
     }
     v
@@ -193,7 +219,7 @@ fn judge(q: &Query, all: &[&MEvent], groups: &[CommittedEvents], h: &H) -> Optio
 fn run_queries(h: &H, case: &Case, phase: &str, out: &mut WorkerOut) -> bool {
     let mut targets: Vec<(Target, Vec<&MEvent>, String, u16)> = Vec::new();
     for s in 0..4u8 {
-        let name = stream_name("", s);
+        let name = stream_name(&h.prefix, s);
         let pk = if s == 2 { 1 } else { 0 };
         targets.push((Target::Stream(s), h.model.stream_events(&name), name, partition_of(pk)));
     }
@@ -249,6 +275,86 @@ fn run_queries(h: &H, case: &Case, phase: &str, out: &mut WorkerOut) -> bool {
     true
 }
 
+/// The stream index of every sealed segment, asked directly: for every stream id present anywhere in the database,
+/// every proper prefix of it and two extensions of it, `ClosedStreamIndex::get_key` must answer with a record exactly
+/// when the segment's own event file holds events of that id, and then with their version range.  (What a scan does
+/// with a wrong answer - start in the wrong segment, stop early - depends on bloom filter and hash accidents; the
+/// answer itself does not.)  Requires the index files to be complete (after the background flush / a reopen).
+fn probe_closed_stream_indexes(h: &H, case: &Case, phase: &str, out: &mut WorkerOut) -> bool {
+    use sierradb::bucket::segment::{BucketSegmentReader, Record};
+    use sierradb::bucket::stream_index::ClosedStreamIndex;
+    use sierradb::bucket::{BucketSegmentId, SegmentKind};
+    use std::collections::BTreeMap;
+    let segs_dir = h.dir.join("buckets").join("00000").join("segments");
+    let mut ids: Vec<u32> = std::fs::read_dir(&segs_dir).into_iter().flatten().filter_map(|e| e.ok()?.file_name().to_str()?.parse().ok()).collect();
+    ids.sort();
+    ids.pop(); // the live segment has no closed index
+    if ids.is_empty() {
+        return true;
+    }
+    // ground truth per segment from the event files
+    let mut truth: Vec<(u32, BTreeMap<String, (u64, u64)>)> = Vec::new();
+    let mut all_ids: BTreeSet<String> = BTreeSet::new();
+    for sid in &ids {
+        let bsid = BucketSegmentId::new(0, *sid);
+        let Ok(mut rd) = BucketSegmentReader::open(SegmentKind::Events.get_path(&h.dir, bsid), None) else { return true };
+        let mut m: BTreeMap<String, (u64, u64)> = BTreeMap::new();
+        let mut it = rd.iter();
+        while let Ok(Some(rec)) = it.next_record() {
+            if let Record::Event(e) = rec {
+                let name = e.stream_id.to_string();
+                let v = m.entry(name.clone()).or_insert((e.stream_version, e.stream_version));
+                v.0 = v.0.min(e.stream_version);
+                v.1 = v.1.max(e.stream_version);
+                all_ids.insert(name);
+            }
+        }
+        truth.push((*sid, m));
+    }
+    for ev in h.model.partition_events(partition_of(0)).iter().chain(h.model.partition_events(partition_of(1)).iter()) {
+        all_ids.insert(ev.stream.clone());
+    }
+    let mut probes: BTreeSet<String> = BTreeSet::new();
+    for id in &all_ids {
+        for l in 1..=id.len() {
+            probes.insert(id[..l].to_string());
+        }
+        probes.insert(format!("{id}0"));
+        probes.insert(format!("{id}9"));
+    }
+    for (sid, m) in &truth {
+        let bsid = BucketSegmentId::new(0, *sid);
+        let path = SegmentKind::StreamIndex.get_path(&h.dir, bsid);
+        let mut idx = match ClosedStreamIndex::open(bsid, &path, case.cfg.seg) {
+            Ok(i) => i,
+            Err(e) => {
+                out.violation(&format!("C03/closed-stream-index/open-failed/{phase}"), &format!("segment {sid}: {e} [{}]", case.cfg.label()), serde_json::to_value(case).unwrap());
+                return false;
+            }
+        };
+        for pid in &probes {
+            out.evals += 1;
+            let got = idx.get_key(pid).map(|r| r.map(|r| (r.version_min, r.version_max)));
+            let want = m.get(pid).copied();
+            let bad = match &got {
+                Err(e) => Some(format!("error {e}")),
+                Ok(g) if *g != want => Some(format!("answered {g:?}, the segment's events say {want:?}")),
+                _ => None,
+            };
+            if let Some(b) = bad {
+                let kind = if want.is_none() { "record-for-absent-stream" } else { "wrong-or-missing-record" };
+                out.violation(
+                    &format!("C03/closed-stream-index/{kind}/{phase}"),
+                    &format!("sealed segment {sid}: lookup of stream id {pid:?} {b} ({} streams in the segment) [{} layout of {} appends]", m.len(), case.cfg.label(), case.layout.len()),
+                    serde_json::to_value(case).unwrap(),
+                );
+                return false;
+            }
+        }
+    }
+    true
+}
+
 fn segment_count(h: &H) -> usize {
     std::fs::read_dir(h.dir.join("buckets").join("00000").join("segments")).map(|d| d.count()).unwrap_or(0)
 }
@@ -277,6 +383,7 @@ pub fn run_case(case: &Case, out: &mut WorkerOut) {
         Ok(h) => h,
         Err(e) => vcommon::machinery_fail(&format!("cannot open fresh database: {e}")),
     };
+    h.prefix = case.stream_prefix.clone();
     for (i, t) in case.layout.iter().enumerate() {
         out.transitions += 1;
         match h.append(t) {
@@ -306,6 +413,9 @@ pub fn run_case(case: &Case, out: &mut WorkerOut) {
             if !run_queries(&h, case, "flushed", out) {
                 return;
             }
+            if case.only.is_none() && !probe_closed_stream_indexes(&h, case, "flushed", out) {
+                return;
+            }
         }
     } else {
         wait_for_index_flush(&h);
@@ -314,6 +424,9 @@ pub fn run_case(case: &Case, out: &mut WorkerOut) {
             return;
         }
         if phases_ok("reopened") && !run_queries(&h, case, "reopened", out) {
+            return;
+        }
+        if case.only.is_none() && !probe_closed_stream_indexes(&h, case, "reopened", out) {
             return;
         }
     }
